@@ -458,20 +458,52 @@ func rotate(v []cx, k int) []cx {
 	return out
 }
 
-// alignErr is the relative error of bringing a value from scale small to scale big by an integer factor
-// (floor of the ratio, as the evaluator does); the window covers the rounding of the recorded 128-bit scales.
-func alignErr(big_, small *big.Rat) float64 {
+const truncKey = "C06:scale-ratio:truncated-below-integer"
+
+// nearInteger returns the integer k closest to ratio and whether ratio is within a relative 2^-100 of it.
+func nearInteger(ratio *big.Rat) (*big.Int, bool) {
+	x := new(big.Rat).Add(ratio, big.NewRat(1, 2))
+	k := new(big.Int).Quo(x.Num(), x.Denom())
+	d := new(big.Rat).Sub(ratio, new(big.Rat).SetInt(k))
+	d.Abs(d)
+	w := new(big.Rat).SetFrac(big.NewInt(1), new(big.Int).Lsh(big.NewInt(1), 100))
+	return k, d.Cmp(w.Mul(w, ratio)) <= 0
+}
+
+// truncationSuspect reports the input class of the listed finding: the exact scale ratio is an integer k, but the
+// quotient of the recorded 128-bit scales falls just below k, so that truncating it gives k-1.
+func truncationSuspect(ratio *big.Rat, num, den rlwe.Scale) bool {
+	k, isInt := nearInteger(ratio)
+	if !isInt || k.Sign() <= 0 {
+		return false
+	}
+	q := num.Div(den)
+	qi, _ := q.Value.Int(nil)
+	return qi.Cmp(k) != 0
+}
+
+// alignErr is the relative error of bringing a value from scale small to scale big by an integer factor: the integer
+// closest to the ratio, which is what the evaluator multiplies by (window of 2^-100 for the rounding of the recorded
+// 128-bit scales and for ties); with floorToo the truncated ratio is accepted as well (finding listed as known).
+func alignErr(big_, small *big.Rat, floorToo bool) float64 {
 	ratio := new(big.Rat).Quo(big_, small)
 	w := new(big.Rat).SetFrac(big.NewInt(1), new(big.Int).Lsh(big.NewInt(1), 100))
 	worst := 0.0
-	for _, s := range []int64{-1, 1} {
-		x := new(big.Rat).Mul(ratio, new(big.Rat).Add(new(big.Rat).SetInt64(1), new(big.Rat).Mul(w, new(big.Rat).SetInt64(s))))
-		k := new(big.Int).Quo(x.Num(), x.Denom())
-		rel := new(big.Rat).Quo(new(big.Rat).SetInt(k), ratio)
-		rel.Sub(new(big.Rat).SetInt64(1), rel)
-		rel.Abs(rel)
-		if f := ratFloat(rel); f > worst {
-			worst = f
+	offs := []*big.Rat{big.NewRat(1, 2)}
+	if floorToo {
+		offs = append(offs, new(big.Rat))
+	}
+	for _, off := range offs {
+		for _, sg := range []int64{-1, 1} {
+			x := new(big.Rat).Mul(ratio, new(big.Rat).Add(new(big.Rat).SetInt64(1), new(big.Rat).Mul(w, new(big.Rat).SetInt64(sg))))
+			x.Add(x, off)
+			k := new(big.Int).Quo(x.Num(), x.Denom())
+			rel := new(big.Rat).Quo(new(big.Rat).SetInt(k), ratio)
+			rel.Sub(new(big.Rat).SetInt64(1), rel)
+			rel.Abs(rel)
+			if f := ratFloat(rel); f > worst {
+				worst = f
+			}
 		}
 	}
 	return worst
@@ -584,6 +616,7 @@ func (r *runner) step(op Op) error {
 	r.inExact = a.exact
 	snapA := a.ct.CopyNew()
 	var bCt, snapB *rlwe.Ciphertext
+	suspectTrunc := false // the step is in the input class of the listed scale-ratio truncation finding
 	useB := func(b *reg) {
 		r.inExact = r.inExact && b.exact
 		if b.ct != nil {
@@ -668,7 +701,13 @@ func (r *runner) step(op Op) error {
 			return h.Failf(k+":op1-modified", "the call changed op1 although the receiver is a different ciphertext")
 		}
 		if verr := r.verify(k, out, exp, documented); verr != nil {
+			if f, ok := verr.(*h.Failure); ok && suspectTrunc && strings.HasSuffix(f.Key, ":value") {
+				f.Key = truncKey
+			}
 			return verr
+		}
+		if suspectTrunc {
+			r.rec.Class("scale-ratio=quotient-below-integer")
 		}
 		if outDeg > exp.deg {
 			r.rec.Class("receiver=larger-degree")
@@ -726,14 +765,29 @@ func (r *runner) step(op Op) error {
 				exp.vals[i] = comb(av[i], bv[i])
 			}
 			exp.eps = a.eps + b.eps
+			bRec := a.ct.Scale
+			if b.ct != nil {
+				bRec = b.ct.Scale
+			} else if b.plain != nil {
+				bRec = b.plain.Scale
+			}
+			floorToo := false
 			switch a.scale.Cmp(b.scale) {
 			case 1:
+				if truncationSuspect(new(big.Rat).Quo(a.scale, b.scale), a.ct.Scale, bRec) {
+					suspectTrunc = true
+					floorToo = r.rec.Known(truncKey, "Add/Sub scale matching")
+				}
 				exp.scale = a.scale
-				exp.eps += maxAbs(bv) * alignErr(a.scale, b.scale)
+				exp.eps += maxAbs(bv) * alignErr(a.scale, b.scale, floorToo)
 				r.flags["unequal-scale-add"] = true
 			case -1:
+				if truncationSuspect(new(big.Rat).Quo(b.scale, a.scale), bRec, a.ct.Scale) {
+					suspectTrunc = true
+					floorToo = r.rec.Known(truncKey, "Add/Sub scale matching")
+				}
 				exp.scale = b.scale
-				exp.eps += maxAbs(av) * alignErr(b.scale, a.scale)
+				exp.eps += maxAbs(av) * alignErr(b.scale, a.scale, floorToo)
 				r.flags["unequal-scale-add"] = true
 			default:
 				exp.scale = a.scale
